@@ -10,7 +10,8 @@ ID = "C19"
 GEN = []
 RULE = ("DAG families with maximal sharing (diamond chains up to 200 levels, ladders, random DAGs with fan-in) for "
         "ordering/serialising/parsing; BoC headers announcing far more cells/roots/index entries than the data holds; "
-        "TL inputs with adversarial vector counts; measured: number of Cell.__hash__ calls per order(), number of "
+        "TL inputs with adversarial vector counts, bytes-field length prefixes exceeding the data (with complete nested "
+        "objects as payload), truncations and byte flips of valid messages; measured: number of Cell.__hash__ calls per order(), number of "
         "deserialize_cell / TlSchemas.deserialize calls per input byte; non-trivial = DAG with sharing or an "
         "adversarial count field; distinct by case")
 TRUSTED = [
@@ -23,18 +24,29 @@ TRUSTED = [
 ASSUMES = ["'cannot run for more than a fraction of a second' is reported only as measured times of the replay inputs"]
 
 
-def count_hash_calls(fn):
+class BudgetExceeded(Exception):
+    pass
+
+
+def count_hash_calls(fn, budget=10 ** 9):
+    """runs fn counting Cell.__hash__ calls; the run is cut off (result None) once the count passes the budget, so that
+    a super-polynomial traversal is reported instead of being waited for"""
     from pytoniq_core.boc.cell import Cell
     orig = Cell.__hash__
     n = [0]
 
     def counted(self):
         n[0] += 1
+        if n[0] > budget:
+            raise BudgetExceeded()
         return orig(self)
     Cell.__hash__ = counted
+    t0 = time.time()
     try:
-        t0 = time.time()
-        r = fn()
+        try:
+            r = fn()
+        except BudgetExceeded:
+            r = None
         dt = time.time() - t0
     finally:
         Cell.__hash__ = orig
@@ -69,20 +81,24 @@ def run(ctx):
         n_cells, visits = int(mc["cells"]), int(mc["visits"])
         objs = cells.build_py(d)
         root = objs[-1]
-        calls, dt, res = count_hash_calls(lambda: root.order({}))
+        bound = 8 * (visits + n_cells) + 16
+        calls, dt, res = count_hash_calls(lambda: root.order({}), budget=100 * bound)
         worst = max(worst, dt)
+        if res is None:
+            ctx.fail("order-work-superlinear", f"{n_cells} cells, {visits} model visits: order() cut off after {calls} hash operations",
+                     {"dag": d})
+            continue
         if len(res) != n_cells:
             ctx.disagreements.append({"stream": "order", "case": d[:5], "impl": f"{len(res)} cells", "model": m})
             ctx.corr.setdefault("order", {"cases": 0, "disagree": 0})["disagree"] += 1
-        edges = sum(len(objs[i].refs) for i in range(len(d)))
-        bound = 8 * (visits + n_cells) + 16
         if calls > bound:
             ctx.fail("order-work-superlinear", f"{n_cells} cells, {visits} model visits, but {calls} hash operations in order()",
                      {"dag": d})
         # whole to_boc / from_boc
-        calls2, dt2, blob = count_hash_calls(lambda: root.to_boc())
+        calls2, dt2, blob = count_hash_calls(lambda: root.to_boc(), budget=100 * (40 * (visits + n_cells) + 100))
         worst = max(worst, dt2)
-        if calls2 > 40 * (visits + n_cells) + 100:
+        if blob is None or calls2 > 40 * (visits + n_cells) + 100:
+            blob = blob or b""
             ctx.fail("to_boc-work-superlinear", f"{n_cells} cells: {calls2} hash operations in to_boc()", {"dag": d})
         if dt + dt2 > 2.0:
             ctx.fail("serialisation-slow", f"{n_cells} cells / {len(blob)} bytes took {dt + dt2:.1f}s", {"dag": d})
@@ -118,44 +134,111 @@ def run(ctx):
                          {"boc": d.hex()})
     ctx.extra["adversarial_headers"] = n_adv
 
-    # TL vector count
-    r = core.call_impl(lambda _: tl_vector_case(), None, timeout_s=60)
-    if r != "ok":
-        ctx.fail("tl-vector-count-drives-loop", r, {"tl": "vector"})
+    # TL parser: adversarial counts / length prefixes / truncations
+    n_tl = 0
+    for data in tl_adversarial_inputs(rng, ctx.n(150, 1500)):
+        n_tl += 1
+        ctx.note_case(["tl-adversarial", data.hex()])
+        r = core.call_impl(lambda _: tl_case(data), None, timeout_s=30)
+        if r != "ok":
+            ctx.fail("tl-parser-work-not-bounded-by-input", r, {"tl": data.hex()})
+    ctx.extra["adversarial_tl_inputs"] = n_tl
 
 
-def tl_vector_case():
-    from pytoniq_core.tl.generator import TlGenerator, TlSchemas
-    schemas = TlGenerator.with_default_schemas().generate()
-    sch = schemas.get_by_name("liteServer.transactionList")
-    if sch is None:
-        return "ok"
-    data = sch.little_id() + (100000).to_bytes(4, "little")
+_SCHEMAS = []
+
+
+def tl_schemas():
+    if not _SCHEMAS:
+        from pytoniq_core.tl.generator import TlGenerator
+        _SCHEMAS.append(TlGenerator.with_default_schemas().generate())
+    return _SCHEMAS[0]
+
+
+def tl_adversarial_inputs(rng, n):
+    """byte strings for TlSchemas.deserialize: huge vector counts; bytes fields whose length prefix exceeds the data
+    present, with complete nested boxed objects as payload (the library re-parses such payloads); truncations and
+    byte flips of valid serialisations"""
+    sch = tl_schemas()
+
+    def ser(name, **kw):
+        s = sch.get_by_name(name)
+        return sch.serialize(s, kw) if s is not None else None
+    out = []
+    tl = sch.get_by_name("liteServer.transactionList")
+    if tl is not None:
+        for cnt in (100000, 2 ** 31 - 1, 2 ** 32 - 1):
+            out.append(tl.little_id() + cnt.to_bytes(4, "little"))
+    nested = [x for x in (ser("dht.ping", random_id=rng.getrandbits(62)), ser("tcp.ping", random_id=rng.getrandbits(62)),
+                          ser("adnl.message.nop")) if x]
+    carriers = [sch.get_by_name(nm) for nm in ("adnl.message.custom", "adnl.message.answer", "adnl.message.query")]
+    carriers = [c for c in carriers if c is not None]
+    for c in carriers:
+        for inner in nested:
+            for k in (1, 2, 3):
+                payload = inner * k
+                for claimed in (len(payload) + 1, len(payload) + 4, 100, 253, 200):
+                    if claimed <= len(payload) or claimed > 253:
+                        continue
+                    head = c.little_id()
+                    if c.name == "adnl.message.answer" or c.name == "adnl.message.query":
+                        head += rng.randbytes(32)
+                    out.append(head + bytes([claimed]) + payload)
+                # long form prefix claiming megabytes
+                out.append(c.little_id() + (rng.randbytes(32) if c.name != "adnl.message.custom" else b"") +
+                           b"\xfe" + (2 ** 24 - 1).to_bytes(3, "little") + payload)
+    valid = [x for x in (ser("adnl.message.custom", data=b"hello world"), ser("dht.ping", random_id=5),
+                         ser("adnl.message.custom", data=nested[0] if nested else b"x")) if x]
+    while len(out) < n and valid:
+        v = bytearray(rng.choice(valid))
+        kind = rng.randrange(3)
+        if kind == 0:
+            v = v[:rng.randrange(len(v) + 1)]
+        elif kind == 1 and len(v) > 4:
+            v[rng.randrange(4, len(v))] = rng.randrange(256)
+        else:
+            v += rng.randbytes(rng.randrange(1, 9))
+        out.append(bytes(v))
+    return out[:max(n, 40)]
+
+
+def tl_case(data):
+    """number of (nested) TlSchemas.deserialize calls must stay within a multiple of the input length"""
+    from pytoniq_core.tl.generator import TlSchemas
+    schemas = tl_schemas()
     calls = [0]
+    budget = 50 * len(data) + 50
     orig = TlSchemas.deserialize
 
     def counted(self, *a, **k):
         calls[0] += 1
+        if calls[0] > 20 * budget:
+            raise BudgetExceeded()
         return orig(self, *a, **k)
     TlSchemas.deserialize = counted
+    cut = False
     try:
         t0 = time.time()
         try:
             schemas.deserialize(data)
+        except BudgetExceeded:
+            cut = True
         except Exception:
             pass
         dt = time.time() - t0
     finally:
         TlSchemas.deserialize = orig
-    if calls[0] > 50 * len(data):
-        return f"an {len(data)}-byte TL input made the parser run {calls[0]} nested deserialisations ({dt:.2f}s)"
+    if cut or calls[0] > budget:
+        return f"a {len(data)}-byte TL input made the parser run {calls[0]}{'+' if cut else ''} nested deserialisations ({dt:.2f}s)"
+    if dt > 2.0:
+        return f"a {len(data)}-byte TL input took {dt:.1f}s"
     return "ok"
 
 
 def replay(ctx, obj):
     c = obj["case"]
     if "tl" in c:
-        r = core.call_impl(lambda _: tl_vector_case(), None, timeout_s=60)
+        r = core.call_impl(lambda _: tl_case(bytes.fromhex(c["tl"])), None, timeout_s=60)
         return None if r == "ok" else r
     if "boc" in c:
         t0 = time.time()
@@ -163,6 +246,6 @@ def replay(ctx, obj):
         return "parser ran long" if time.time() - t0 > 1.0 or r == "timeout" else None
     d = [(t, b, list(r)) for t, b, r in c["dag"]]
     objs = cells.build_py(d)
-    calls, dt, res = count_hash_calls(lambda: objs[-1].to_boc())
     n = len({o.hash for o in objs})
-    return None if calls <= 200 * (5 * n) + 100 and dt < 2.0 else f"{n} cells: {calls} hash operations, {dt:.1f}s"
+    calls, dt, res = count_hash_calls(lambda: objs[-1].to_boc(), budget=100 * (200 * (5 * n) + 100))
+    return None if res is not None and calls <= 200 * (5 * n) + 100 and dt < 2.0 else f"{n} cells: {calls} hash operations, {dt:.1f}s"
